@@ -206,6 +206,18 @@ func mutationsOf(seed []byte) []edit {
 			}
 		}
 	}
+	// (1') emptying: every element in turn gets length 0 and loses its value; once with the
+	// enclosing lengths left alone, once with every enclosing length adjusted (a well-formed
+	// packet in which that element is empty)
+	for i, nd := range nodes {
+		if nd.length == 0 {
+			continue
+		}
+		eds = append(eds, edit{off: nd.lOff, del: nd.end - nd.lOff, ins: []byte{0}, desc: fmt.Sprintf("empty@%d(T=%#x L=%d)", nd.tOff, nd.typ, nd.length)})
+		if nd.parent >= 0 {
+			eds = append(eds, edit{off: 0, del: len(seed), ins: emptiedConsistently(seed, nodes, i), desc: fmt.Sprintf("empty@%d(T=%#x L=%d), enclosing lengths adjusted", nd.tOff, nd.typ, nd.length)})
+		}
+	}
 	// (2) truncation at every offset
 	for k := 0; k < len(seed); k++ {
 		eds = append(eds, edit{off: k, del: len(seed) - k, desc: fmt.Sprintf("truncate@%d", k)})
@@ -243,4 +255,20 @@ func mutationsOf(seed []byte) []edit {
 		eds = append(eds, le.e)
 	}
 	return eds
+}
+
+// emptiedConsistently rebuilds the seed with node i emptied and the length of every ancestor
+// re-encoded (minimal width) so that the result is well-formed.
+func emptiedConsistently(seed []byte, nodes []tlvNode, i int) []byte {
+	nd := nodes[i]
+	cur := append(append([]byte{}, seed[nd.tOff:nd.lOff]...), 0) // the emptied element
+	lo, hi := nd.tOff, nd.end                                    // the range of the seed that cur replaces
+	for p := nd.parent; p >= 0; p = nodes[p].parent {
+		pn := nodes[p]
+		val := append(append(append([]byte{}, seed[pn.vOff:lo]...), cur...), seed[hi:pn.end]...)
+		t := append([]byte{}, seed[pn.tOff:pn.lOff]...)
+		cur = append(append(t, encVar(uint64(len(val)), minWidth(uint64(len(val))))...), val...)
+		lo, hi = pn.tOff, pn.end
+	}
+	return append(append(append([]byte{}, seed[:lo]...), cur...), seed[hi:]...)
 }
